@@ -572,6 +572,8 @@ class Run:
                 if not any(p is me and c is i.cause for p, c in self.interrupts):
                     self.oracle.bad('process %d received an Interrupt nobody sent' % idx)
                 self.stats['interrupt'] = self.stats.get('interrupt', 0) + 1
+        # a generator that ends without ever yielding makes Process._run_payload fail (C18's business)
+        yield self.env.timeout(0)
 
     def execute(self):
         Process = self.events.Process
